@@ -125,6 +125,14 @@ type Server struct {
 	// OnConn, if set, takes over a connection entirely (used by the replication source).
 	Special func(s *Server, cn *ConnState, args [][]byte) (handled bool)
 	// ReplyDelay: simulated processing delay per command (ms), tape independent
+	// ScanPage, if set, decides how many keys the next SCAN page carries (0 = an empty page); default COUNT
+	ScanPage func(count int) int
+	// ScanOrder, if set, permutes the snapshot a scan iterates over
+	ScanOrder func(n int) []int
+	// Before, if set, runs before every command is executed (mutators, probes)
+	Before    func(cn *ConnState, args [][]byte)
+	scans     map[int64]*scanState
+	cursorSeq int64
 	// LogOnly: commands for which the model only records the call and answers +OK
 	LogOnly func(name string) bool
 	Role string // master | slave, for INFO replication
@@ -133,6 +141,12 @@ type Server struct {
 }
 
 // ConnState is the per-connection state.
+type scanState struct {
+	db    int
+	order []string
+	pos   int
+}
+
 type ConnState struct {
 	ID     int
 	C      *simnet.Conn
@@ -416,6 +430,9 @@ func init() {
 func (sv *Server) known(name string) bool { return knownCmds[name] }
 
 func (sv *Server) execute(cn *ConnState, args [][]byte, inExec bool) []byte {
+	if sv.Before != nil {
+		sv.Before(cn, args)
+	}
 	if sv.Fail != nil {
 		if e := sv.Fail(cn.ID, cn.DB, args); e != "" {
 			r := errReply(e)
@@ -1084,6 +1101,63 @@ func (sv *Server) run(cn *ConnState, args [][]byte) []byte {
 			return bulk(nil)
 		}
 		return bulk(sv.DumpOf(e))
+	case "scan":
+		if len(a) < 1 {
+			return wrongArgs(name)
+		}
+		cur, ok := parseInt(a[0])
+		if !ok {
+			return errReply("ERR invalid cursor")
+		}
+		count := 10
+		for i := 1; i+1 < len(a); i += 2 {
+			if strings.EqualFold(string(a[i]), "count") {
+				if v, ok := parseInt(a[i+1]); ok && v > 0 {
+					count = int(v)
+				}
+			}
+		}
+		if sv.scans == nil {
+			sv.scans = map[int64]*scanState{}
+		}
+		var st *scanState
+		if cur == 0 {
+			ks := sv.Keys(db)
+			st = &scanState{db: db}
+			if sv.ScanOrder != nil {
+				for _, i := range sv.ScanOrder(len(ks)) {
+					st.order = append(st.order, ks[i])
+				}
+			} else {
+				st.order = ks
+			}
+		} else {
+			st = sv.scans[cur]
+			delete(sv.scans, cur)
+			if st == nil {
+				return array(bulk([]byte("0")), array())
+			}
+		}
+		page := count
+		if sv.ScanPage != nil {
+			page = sv.ScanPage(count)
+		}
+		var parts [][]byte
+		for page > 0 && st.pos < len(st.order) {
+			k := st.order[st.pos]
+			st.pos++
+			if sv.Get(st.db, k) != nil { // keys deleted meanwhile are not returned
+				parts = append(parts, bulk([]byte(k)))
+				page--
+			}
+		}
+		next := int64(0)
+		if st.pos < len(st.order) {
+			sv.cursorSeq++
+			next = sv.cursorSeq*7919<<4 | 9
+			sv.scans[next] = st
+		}
+		return array(bulk([]byte(strconv.FormatInt(next, 10))), array(parts...))
 	case "script":
 		if len(a) >= 2 && strings.EqualFold(string(a[0]), "load") {
 			sv.Scripts = append(sv.Scripts, string(a[1]))
